@@ -178,6 +178,32 @@ int main(int argc, char **argv)
             if(need != expect.size()) vp::violation("null-buffer-size|rtosc_amessage|" + shape, cid, "reports " + std::to_string(need) + ", encoding has " + std::to_string(expect.size()));
         }
     }
+    // arguments that alias each other or the address: a string argument whose pointer IS the address pointer (a reply that echoes its own
+    // address), the same string object passed twice, a blob whose data is the address text
+    {
+        vp::bound("aliasing_arguments", "address lengths 1..9 x {s,si,is,ss,sb} with the string (and blob data) pointers identical to the address pointer, every capacity 0..needed+8");
+        for(size_t al = 1; al <= 9; ++al) for(const char *sh : {"s", "si", "is", "ss", "sb"}) {
+            ++top; if(!vp::mine(top)) continue;
+            std::string ts = sh, cid = "alias|a" + std::to_string(al) + "|" + ts;
+            if(!vp::want(cid)) continue;
+            vp::current_case() = cid;
+            const std::string addr = gen::address(al);
+            std::vector<ref::Arg> args; std::vector<rtosc_arg_t> ra;
+            for(char t : ts) {
+                ref::Arg a; a.type = t; rtosc_arg_t r; memset(&r, 0, sizeof r);
+                if(t == 's') { a.s = addr; r.s = addr.c_str(); }
+                else if(t == 'b') { a.b.assign(addr.begin(), addr.end()); a.b_len = (uint32_t)addr.size(); r.b.len = (int32_t)addr.size(); r.b.data = (uint8_t *)addr.c_str(); }
+                else { a.u32 = 0x01020304u; r.i = 0x01020304; }
+                args.push_back(a); ra.push_back(r);
+            }
+            std::string expect = ref::encode(addr, ts, args);
+            vp::state(); vp::eval(); vp::nontrivial(vp::fnv(expect) ^ 5); vp::trace();
+            all_caps("rtosc_amessage", [&](char *b, size_t len) { return rtosc_amessage(b, len, addr.c_str(), ts.c_str(), ra.data()); }, expect, cid, "argument-aliases-address");
+            vp::transition();
+            size_t need = rtosc_amessage(nullptr, 0, addr.c_str(), ts.c_str(), ra.data());
+            if(need != expect.size()) vp::violation("null-buffer-size|rtosc_amessage|argument-aliases-address", cid, "reports " + std::to_string(need) + ", encoding has " + std::to_string(expect.size()));
+        }
+    }
     // many arguments through the va_list path (the argument array of rtosc_vmessage lives on its stack) and through rtosc_amessage
     {
         vp::bound("many_arguments", "64,129,256,257,300,500 arguments (all i / alternating i,s,T / alternating h,f), every capacity 0..needed+8");
